@@ -417,6 +417,11 @@ func (s *Lexer) getNextToken() (*Token, error) {
 		} else if ch == '(' && current_state == SCOMMENTSTART {
 			buf.WriteRune(ch)
 			current_state = SBLOCKCOMMENT
+		} else if ch == '\n' && current_state == SCOMMENTSTART {
+			// an empty line comment ends at the end of its own line
+			s.unread_last()
+			current_state = SCOMMENT
+			break
 		} else if current_state == SCOMMENTSTART {
 			buf.WriteRune(ch)
 			current_state = SCOMMENT
